@@ -1,7 +1,10 @@
 """C07 - fields are immutable once constructed (DESIGN 2/C07): model-based HISTORY check.
 
-Recipe: {"dom": "u"|"rg"|"2d", "n": int, "ops": [op, ...]};  every op is a JSON list
-    ["new",    ctor, [srckind, i], dtype, vals]      Field / Field.from_raw / makeField from an array
+Recipe: {"dom": "u"|"rg"|"2d"|"s", "n": int, "ops": [op, ...]};  every op is a JSON list
+    ["new",    ctor, [srckind, i], dtype, vals]      Field / Field.from_raw / makeField / Field.scalar from an array
+                                                     (srckind: SRC_KINDS - plain, views, AnyArray wrappers, read-only,
+                                                     non-native byte order, ndarray subclasses: memmap, masked,
+                                                     matrix, user subclass; dom "s" = scalar domain, 0-d sources)
     ["full",   which, value]                         ift.full / Field.full / scalar makeField / from_raw / Field.scalar
     ["random", which, seed, rtype, dtype]            ift.from_random / Field.from_random (seed pushed + popped)
     ["cast",   f]                                    Field.cast_domain
@@ -13,6 +16,11 @@ Recipe: {"dom": "u"|"rg"|"2d", "n": int, "ops": [op, ...]};  every op is a JSON 
     ["derive", a, kind]                              views / reshapes / slices / wrappers of a registered array
     ["write",  a, wkind, pos, v]                     write attempt through a registered array (source or handle)
     ["op",     f, okind]                             makeOp / DiagonalOperator / Adder / GaussianEnergy / VdotOperator
+    ["copy",   f, how]                               pickle round trip / copy.deepcopy / copy.copy of a field
+    ["reject", how, [srckind, i], dtype, vals]       constructor call that must be REJECTED (wrong shape / domain /
+                                                     type), made with a registered source or handle (or a fresh array)
+    ["ffail",  f, how]                               failing operation on a field (mismatching domains, bad cast, ...)
+    ["hfail",  a, how]                               failing operation on a registered array / AnyArray handle
 Indices f, g, a are taken modulo the number of registered fields / arrays (so every list is a valid
 history and the list shrinks as one value); an op whose precondition cannot be met degrades to a
 documented fallback (e.g. .imag of a real field -> .real).
@@ -21,11 +29,18 @@ Model: for every field the bytes (dtype, shape, C-order content) observed when i
 (for array constructors additionally the bytes computed by the harness from the recipe); for every
 derived operator the bytes of its output on a fixed probe when it was built.
 Invariant after every step: every field and every derived operator still reproduces its bytes.
+A rejected / failing call has to raise one of the documented exception types and - like every other step -
+must leave every snapshot intact; whether the arrays involved are writable afterwards is NOT prescribed
+(Field.__init__ locks its argument before it validates the shape), only that later writes cannot change a field.
 The observation goes through `Field.val.val` (no side effects; `Field.asnumpy()` switches the wrapped
 array to read-only as a side effect and would mask the defect it is looking for) - `asnumpy()` is
 used as a second observation channel once, at the end of the history.
 """
+import copy
 import operator
+import os
+import pickle
+import tempfile
 
 import numpy as np
 from hypothesis import strategies as st
@@ -37,7 +52,12 @@ from vlib import strat as S
 PROPERTY = "C07"
 LEVEL = "exploration"
 RULE = ("Histories (lists of <= 30 op-tuples, quick) interleaving every public (Multi)Field constructor "
-        "(keeping the source ndarray/AnyArray object), handle acquisition (.val, .val.val, .raw, "
+        "(keeping the source object: plain / Fortran / view / strided / read-only / non-native-byte-order ndarray, "
+        "ndarray subclasses np.memmap (temp file), np.ma.MaskedArray, np.matrix, a user subclass, AnyArray wrappers "
+        "of those (also locked beforehand), 0-d arrays and 0-d AnyArrays on the scalar domain), pickle / deepcopy / "
+        "copy round trips of fields, REJECTED constructor calls (wrong shape / domain / type, made with any "
+        "registered source or handle) and other failing operations on fields and handles (mismatching domains, "
+        "bad shapes, bad indices), handle acquisition (.val, .val.val, .raw, "
         ".asnumpy(), .val_rw(), .asnumpy_rw(), AnyArray wrappers, views/slices/reshapes of those), write "
         "attempts through the source object and through every handle (item/slice assignment, in-place "
         "operators, ufunc out=, fill, sort, partition, put, flat, copyto, putmask, place, byteswap, setfield, "
@@ -45,8 +65,10 @@ RULE = ("Histories (lists of <= 30 op-tuples, quick) interleaving every public (
         "AnyArray.__setitem__/__i*__/__array_ufunc__/__array_function__ with out=) and construction of "
         "operators holding a field (makeOp, DiagonalOperator, Adder, GaussianEnergy, VdotOperator). "
         "Oracle = model of snapshot bytes: after every step each field and each derived operator (on a "
-        "fixed probe) reproduces the bytes recorded when it was built; plus a complete finite enumeration "
-        "constructor x access path x write kind of three-step histories. Classes count histories.")
+        "fixed probe) reproduces the bytes recorded when it was built; a rejected call must raise a documented "
+        "exception type; plus a complete finite enumeration "
+        "constructor x access path x write kind of three-step histories and constructor x rejected/failing call x "
+        "argument path x write path of four-step histories. Classes count histories.")
 LEVEL_TEXT = ("Generated search over construction/handle/write histories with an exact byte-level model; "
               "every write attempt is first performed on a harness-owned twin array, so 'refused', "
               "'wrote to a copy' and 'not applicable for this dtype' are told apart without trusting NIFTy; "
@@ -67,6 +89,16 @@ ASSUMPTIONS = [
     "a plain copy but that is refused by such a handle (before the handle was itself used to build a field) "
     "is reported as rw_copy_refuses_write",
     "a write attempt may raise ValueError/TypeError/RuntimeError (refusal); it must never change a snapshot",
+    "a write attempt executed by numpy on an instance of an ndarray SUBCLASS (memmap, MaskedArray, matrix, user "
+    "subclass) may raise any Exception (numpy's subclass code, e.g. MaskedArray has no .real setter); arithmetic, "
+    "operators and copies built from a field whose buffer is such a subclass instance may raise (np.matrix '*' is a "
+    "matrix product): the step is then skipped - C07 only demands that nothing changes",
+    "for a MaskedArray the field's values are the data buffer (np.asarray); the mask is not part of the model",
+    "a rejected constructor call must raise ValueError/TypeError/KeyError; it may leave its array argument "
+    "read-only (Field.__init__ locks before validating) - a val_rw()/asnumpy_rw() copy that was handed to any "
+    "constructor call, accepted or rejected, is no longer required to accept writes",
+    "np.memmap sources live in a TemporaryDirectory of the history that is removed when the history ends; the "
+    "backing file is never written directly (pre-existing alias outside NIFTy)",
     "fields are observed through Field.val.val (side-effect free); Field.asnumpy() is cross-checked at the end",
     "excluded by construction (defects of numpy itself, re-checked on every run by KNOWN_PROBES when listed in "
     "known_findings.json): ufunc.at and the .real=/.imag= setters of 0-d arrays (also reached by round(out=) of a "
@@ -79,14 +111,42 @@ DT = {"f8": np.float64, "c16": np.complex128, "i8": np.int64, "f4": np.float32}
 REFUSAL = (ValueError, TypeError, RuntimeError)
 
 ARR_CTORS = ["Field", "from_raw", "makeField"]
-SRC_KINDS = ["own", "fortran", "view", "strided", "anyarray", "anyarray_view"]
+ARR_CTORS_S = ARR_CTORS + ["Field.scalar"]          # Field.scalar(0-d array): scalar domain only, else -> Field
+SRC_KINDS0 = ["own", "fortran", "view", "strided", "anyarray", "anyarray_view"]
+SRC_KINDS_NEW = ["readonly", "byteswapped", "anyarray_locked", "memmap", "masked", "masked_m", "matrix", "subclass",
+                 "anyarray_subclass"]
+SRC_KINDS = SRC_KINDS0 + SRC_KINDS_NEW
+AA_SRC = ("anyarray", "anyarray_view", "anyarray_locked", "anyarray_subclass")
+COPY_KINDS = ["pickle", "pickle5", "deepcopy", "copy"]
+# rejected constructor calls taking an array argument: how -> admissible exception types
+REJECT = {"Field_wrongshape": (ValueError,), "from_raw_wrongshape": (ValueError,), "makeField_wrongshape": (ValueError,),
+          "Field_scalar_nonscalar": (ValueError,), "Field_domain_not_tuple": (TypeError,), "Field_mdom": (TypeError,),
+          "from_raw_mdom": (TypeError,), "makeField_mdom_nondict": (TypeError,),
+          "mf_from_raw_missing_key": (KeyError, ValueError), "mf_from_raw_wrongshape": (ValueError,),
+          "MultiField_ctor_array": (TypeError,), "full_array": (TypeError,), "DiagonalOperator_array": (TypeError,)}
+REJECT_KINDS = list(REJECT)
+REJECT_SHAPE = REJECT_KINDS[:4]
+# failing operations on a field
+FFAIL = {"cast_wrongshape": (ValueError,), "add_mismatch": (ValueError,), "mul_mismatch": (ValueError,),
+         "vdot_mismatch": (ValueError,), "unite_mismatch": (ValueError,), "flexible_addsub_mismatch": (ValueError,),
+         "makeOp_wrong_input": (ValueError,), "Adder_wrong_input": (ValueError,), "extract_wrong": (ValueError,),
+         "bool": (TypeError,), "astype_bad": (TypeError,), "mf_ctor_wrongdom": (ValueError, TypeError),
+         "from_dict_wrongdom": (ValueError,), "getitem_badkey": (KeyError, TypeError, IndexError)}
+FFAIL_KINDS = list(FFAIL)
+# failing operations on a registered array object (ndarray: numpy's business; AnyArray: NIFTy code)
+HFAIL_ND = ["setitem_badshape", "iadd_badshape", "copyto_badshape", "setitem_oob", "put_oob", "reshape_bad",
+            "setitem_str", "ufunc_out_badshape"]
+HFAIL_AA = ["add_badshape", "setitem_badshape", "setitem_ndarray", "index_ndarray", "reshape_bad", "iadd_badshape",
+            "astype_bad", "ufunc_out_badshape", "setitem_oob"]
+HFAIL_KINDS = sorted(set(HFAIL_ND + HFAIL_AA))
+HFAIL_EXC = (ValueError, TypeError, IndexError, RuntimeError)
 FULL_KINDS = ["ift.full", "Field.full", "makeField_scalar", "from_raw_scalar", "Field.scalar"]
 RANDOM_KINDS = ["ift.from_random", "Field.from_random"]
 UNARY = ["neg", "abs", "pos", "real", "imag", "conjugate", "scale1", "at", "astype_same", "astype_c",
          "ptw_exp", "map_id", "map_view", "weight", "extract"]
 BINARY = ["add", "sub", "mul", "mul_scalar", "radd_scalar", "pow2", "unite", "flexible_addsub"]
 MF_HOW = ["from_raw", "makeField_dict", "from_dict", "from_dict_nodomain", "from_dict_missing", "full",
-          "MultiField.full", "random"]
+          "MultiField.full", "random", "ctor"]
 MFPART_HOW = ["getitem", "to_dict", "values", "extract_by_keys"]
 TOP_HANDLES = ["val", "val.val", "raw", "asnumpy", "val_rw", "asnumpy_rw", "val.asnumpy", "val.copy"]
 RW_HANDLES = ("val_rw", "asnumpy_rw", "val.copy")
@@ -113,8 +173,22 @@ WFAMILY = {"setitem": "item", "setall": "item", "setitem_arr": "item", "flat_set
 
 
 # ------------------------------------------------------------------ observation (harness side)
+class TaggedArray(np.ndarray):
+    """trivial user-defined ndarray subclass (module level: picklable)"""
+
+
 def _raw(x):
     return x.val if isinstance(x, ift.AnyArray) else x
+
+
+def _plain(a):
+    """is `a` an instance of exactly np.ndarray with native byte order (else: 'exotic', see ASSUMPTIONS)"""
+    return type(a) is np.ndarray and a.dtype.isnative
+
+
+def _bytes(a):
+    """content bytes of the data buffer (MaskedArray.tobytes would substitute the fill value)"""
+    return np.asarray(a).tobytes()
 
 
 def _shares(a, b):
@@ -315,6 +389,15 @@ def _wkind_for(obj, name):
 
 # ------------------------------------------------------------------ derived handles
 def _derive_nd(a, kind):
+    if type(a) is not np.ndarray:
+        try:
+            return _derive_nd0(a, kind)
+        except Exception:       # e.g. np.matrix cannot become 3-d
+            return a.view()
+    return _derive_nd0(a, kind)
+
+
+def _derive_nd0(a, kind):
     small = a.ndim == 0 or a.size <= 1
     if kind == "view":
         return a.view()
@@ -353,6 +436,15 @@ def _derive_nd(a, kind):
 
 
 def _derive_aa(h, kind):
+    if type(h.val) is not np.ndarray:
+        try:
+            return _derive_aa0(h, kind)
+        except Exception:
+            return h.view()
+    return _derive_aa0(h, kind)
+
+
+def _derive_aa0(h, kind):
     a = h.val
     small = a.ndim == 0 or a.size <= 1
     if kind == "val":
@@ -393,8 +485,10 @@ def _derive_aa(h, kind):
 def _cgroup(ctor):
     """constructor group used in the constructor x handle x write-family histogram"""
     c = ctor.split("<")[0]
-    if c in ARR_CTORS or c == "cast_domain":
+    if c in ARR_CTORS_S or c == "cast_domain":
         return c
+    if c == "rejected" or c.startswith("copy_"):
+        return c.split("_")[0]
     if c in FULL_KINDS:
         return "full"
     if c in RANDOM_KINDS or c == "mf_from_random":
@@ -420,6 +514,7 @@ class _Rec:
 
     def __init__(self, obj, root, path, ctor, fidx, rwfam=None):
         self.obj, self.root, self.path, self.ctor, self.fidx, self.rwfam = obj, root, path, ctor, fidx, rwfam
+        self.after_reject = False       # was (an alias of) this object the argument of a rejected call?
 
 
 class History:
@@ -432,11 +527,19 @@ class History:
         elif k == "rg":
             self.main = ift.DomainTuple.make(ift.RGSpace(n, distances=0.5))
             self.alt = ift.DomainTuple.make(ift.UnstructuredDomain(n))
+        elif k == "s":
+            self.main = ift.DomainTuple.scalar_domain()
+            self.alt = ift.DomainTuple.make(())
         else:
             self.main = ift.DomainTuple.make((ift.RGSpace(n), ift.UnstructuredDomain(2)))
             self.alt = ift.DomainTuple.make((ift.UnstructuredDomain(n), ift.RGSpace(2)))
         self.bdom = ift.DomainTuple.make(ift.UnstructuredDomain(2))
         self.mdom = ift.MultiDomain.make({"a": self.main, "b": self.bdom})
+        # domains no registered array / field of this history fits (sizes n+5 >= 6 never occur)
+        self.wrong = [ift.DomainTuple.make(ift.UnstructuredDomain(n + 5)),
+                      ift.DomainTuple.make((ift.UnstructuredDomain(n + 5), ift.RGSpace(3)))]
+        self.tmp = None       # TemporaryDirectory of the memmap sources (created on demand, see close())
+        self.nmm = 0
         self.fields = []      # dict(obj, snap, ctor)
         self.arrs = []        # _Rec
         self.keep = []        # hidden bases of view sources (never written)
@@ -445,6 +548,27 @@ class History:
         self.classes = set()
         self.nontrivial = False
         self.nwrites = 0
+
+    def close(self):
+        """drop every reference to memory-mapped sources, then remove their directory"""
+        self.fields, self.arrs, self.keep, self.ops = [], [], [], []
+        if self.tmp is not None:
+            self.tmp.cleanup()
+            self.tmp = None
+
+    def _exotic(self, *fields):
+        return any(not _plain(leaf) for f in fields for leaf in self._leaves(f))
+
+    def _tolerant(self, fields, label, fn):
+        """run a NIFTy computation on fields; if one of them wraps an ndarray subclass / non-native dtype the
+        computation itself may be unsupported (ASSUMPTIONS): then -> None"""
+        if not self._exotic(*fields):
+            return fn()
+        try:
+            return fn()
+        except Exception:
+            self.classes.add("exotic_unsupported:" + label)
+            return None
 
     # ---------- registration
     def add_field(self, obj, ctor, expect=None):
@@ -480,7 +604,16 @@ class History:
 
     # ---------- sources
     def _fresh_source(self, kind, arr):
-        if kind in ("view", "anyarray_view"):
+        """-> (object for the constructor, expected plain array, [(further object given to NIFTy, path)])"""
+        extras = []
+        if kind == "matrix" and arr.ndim != 2:
+            kind = "subclass"
+        if kind in ("view", "anyarray_view", "strided") and arr.ndim == 0:
+            big = np.zeros(3, dtype=arr.dtype)
+            big[1] = arr
+            self.keep.append(big)
+            src = big[1:2].reshape(())
+        elif kind in ("view", "anyarray_view"):
             big = np.zeros((arr.shape[0] + 2,) + arr.shape[1:], dtype=arr.dtype)
             big[1:-1] = arr
             self.keep.append(big)
@@ -491,12 +624,37 @@ class History:
             self.keep.append(big)
             src = big[::2]
         elif kind == "fortran":
-            src = np.asfortranarray(arr)
+            src = np.array(arr, order="F")
+        elif kind == "byteswapped":
+            arr = arr.astype(arr.dtype.newbyteorder("S"))
+            src = np.array(arr)
+        elif kind == "memmap":
+            if self.tmp is None:
+                self.tmp = tempfile.TemporaryDirectory(prefix="verif_c07_")
+            self.nmm += 1
+            src = np.memmap(os.path.join(self.tmp.name, f"src{self.nmm}.bin"), dtype=arr.dtype, mode="w+",
+                            shape=arr.shape)
+            src[...] = arr
+        elif kind in ("masked", "masked_m"):
+            mask = np.zeros(arr.shape, dtype=bool)
+            if kind == "masked_m":
+                mask[(0,) * arr.ndim] = True
+            src = np.ma.masked_array(np.array(arr), mask=mask)
+        elif kind == "matrix":
+            src = np.matrix(np.array(arr))
+        elif kind in ("subclass", "anyarray_subclass"):
+            src = np.array(arr).view(TaggedArray)
         else:
             src = np.array(arr)
-        if kind in ("anyarray", "anyarray_view"):
+        if kind == "readonly":
+            src.flags.writeable = False
+        if kind in AA_SRC:
+            if kind in ("anyarray_locked", "anyarray_subclass"):
+                extras.append((src, "src.wrapped"))     # the array object that was handed to AnyArray(...)
             src = ift.AnyArray(src)
-        return src
+            if kind == "anyarray_locked":
+                src.lock()
+        return src, arr, extras, kind
 
     def _reusable(self, rec, shape):
         """may registered array `rec` be handed to a constructor? (see ASSUMPTIONS[0])"""
@@ -519,7 +677,7 @@ class History:
         return [f.val.val]
 
     def source(self, spec, shape, dt, vals):
-        """-> (object handed to the constructor, expected array, record or None, label)"""
+        """-> (object handed to the constructor, expected array, record or list of extras, label)"""
         kind, i = spec[0], int(spec[1])
         if kind in ("reuse", "handle") and self.arrs:
             # "reuse": prefer construction sources, "handle": prefer handles
@@ -531,26 +689,30 @@ class History:
                 if self._reusable(rec, shape):
                     if rec.rwfam is not None:
                         self.rw_consumed.add(rec.rwfam)
-                    return rec.obj, np.array(_raw(rec.obj)), rec, ("from_source" if rec.root == "src" else "from_handle:" + rec.root)
+                    return (rec.obj, np.array(np.asarray(_raw(rec.obj))), rec,
+                            ("from_source" if rec.root == "src" else "from_handle:" + rec.root))
             kind = "own"
         if kind not in SRC_KINDS:
             kind = "own"
-        arr = _values(vals, shape, dt)
-        return self._fresh_source(kind, arr), arr, None, kind
+        return self._fresh_source(kind, _values(vals, shape, dt))
 
     def _register_source(self, obj, rec, label, ctor, fidx):
-        if rec is None:
+        if not isinstance(rec, _Rec):
+            for x, path in rec:
+                self.arrs.append(_Rec(x, "src", path, f"{ctor}<{label}>", fidx))
             self.arrs.append(_Rec(obj, "src", "src", f"{ctor}<{label}>", fidx))
-        self.classes.add(f"source:{label}")
+        self.classes.add(f"source:{label}" + ("(0d)" if _raw(obj).ndim == 0 else ""))
 
     # ---------- constructors
     def op_new(self, ctor, spec, dt, vals):
-        if ctor not in ARR_CTORS:
+        if ctor not in ARR_CTORS_S or (ctor == "Field.scalar" and self.main.shape != ()):
             ctor = "Field"
         dt = dt if dt in DT else "f8"
         obj, arr, rec, label = self.source(spec, self.main.shape, dt, vals)
         if ctor == "Field":
             f = ift.Field(self.main, obj)
+        elif ctor == "Field.scalar":
+            f = ift.Field.scalar(obj)
         elif ctor == "from_raw":
             f = ift.Field.from_raw(self.main, obj)
         else:
@@ -602,6 +764,29 @@ class History:
         tgt = self.alt if f.domain is self.main else (self.main if f.domain is self.alt else f.domain)
         self.add_field(f.cast_domain(tgt), "cast_domain", expect=(ent["snap"][0], tuple(tgt.shape), ent["snap"][2]))
 
+    def op_copy(self, i, how):
+        """pickle round trip / deepcopy / copy of a field: a new field with the same bytes"""
+        j, ent = self._field(i)
+        if ent is None:
+            return
+        f = ent["obj"]
+        if how not in COPY_KINDS:
+            how = "pickle"
+        if how == "pickle":
+            g = self._tolerant([f], how, lambda: pickle.loads(pickle.dumps(f)))
+        elif how == "pickle5":
+            def rt():
+                bufs = []
+                data = pickle.dumps(f, protocol=5, buffer_callback=bufs.append)
+                return pickle.loads(data, buffers=[bytearray(b.raw()) for b in bufs])   # as if received
+            g = self._tolerant([f], how, rt)
+        elif how == "deepcopy":
+            g = self._tolerant([f], how, lambda: copy.deepcopy(f))
+        else:
+            g = self._tolerant([f], how, lambda: copy.copy(f))
+        if g is not None:
+            self.add_field(g, "copy_" + how, expect=ent["snap"])
+
     def op_unary(self, i, name):
         j, ent = self._field(i)
         if ent is None:
@@ -619,6 +804,12 @@ class History:
         mf = isinstance(f, ift.MultiField)
         if mf and name in ("scale1", "at", "astype_same", "astype_c", "map_id", "map_view", "pos"):
             name = {"at": "mf_at", "astype_same": "mf_astype"}.get(name, "conjugate")
+        g = self._tolerant([f], "unary_" + name, lambda: self._unary(f, name))
+        if g is not None:
+            self.add_field(g, name if name in UNARY or name.startswith("mf_") else "extract")
+
+    @staticmethod
+    def _unary(f, name):
         if name == "neg":
             g = -f
         elif name == "abs":
@@ -652,9 +843,8 @@ class History:
         elif name == "weight":
             g = f.weight(1)
         else:
-            name = "extract"
             g = f.extract(f.domain)
-        self.add_field(g, name)
+        return g
 
     def op_binary(self, i, k, name, s):
         j, ent = self._field(i)
@@ -664,6 +854,12 @@ class History:
         if name not in BINARY:
             name = "add"
         g = self._partner(j, k)
+        r = self._tolerant([f, g], "binary_" + name, lambda: self._binary(f, g, name, s))
+        if r is not None:
+            self.add_field(r, "binary_" + name)
+
+    @staticmethod
+    def _binary(f, g, name, s):
         if name == "add":
             r = f + g
         elif name == "sub":
@@ -680,7 +876,7 @@ class History:
             r = f.unite(g)
         else:
             r = f.flexible_addsub(g, True)
-        self.add_field(r, "binary_" + name)
+        return r
 
     def op_mf(self, how, specs, dt, vals, i, k):
         if how not in MF_HOW:
@@ -730,6 +926,8 @@ class History:
             exp.append((key,) + cand["snap"])
         if how == "from_dict_nodomain":
             f = ift.MultiField.from_dict(parts)
+        elif how == "ctor":
+            f = ift.MultiField(self.mdom, tuple(parts[kk] for kk in self.mdom.keys()))
         else:
             f = ift.MultiField.from_dict(parts, self.mdom)
         self.add_field(f, "mf_" + how, expect=tuple(exp))
@@ -819,6 +1017,7 @@ class History:
             self.classes.add("derive_gave_scalar")
             return
         self.arrs.append(_Rec(h, rec.root, rec.path + "~" + kind, rec.ctor, rec.fidx, rec.rwfam))
+        self.arrs[-1].after_reject = rec.after_reject
         self.classes.add(("derive_aa:" if isinstance(rec.obj, ift.AnyArray) else "derive_nd:") + kind)
 
     # ---------- derived operators
@@ -834,25 +1033,31 @@ class History:
             kind = "Adder_neg"               # documented: data of a Gaussian energy must be floating
         if mf and kind in ("DiagonalOperator", "VdotOperator"):
             kind = "makeOp"
-        if kind == "makeOp":
-            op = ift.makeOp(f)
-        elif kind == "DiagonalOperator":
-            op = ift.DiagonalOperator(f)
-        elif kind == "Adder":
-            op = ift.Adder(f)
-        elif kind == "Adder_neg":
-            op = ift.Adder(f, neg=True)
-        elif kind == "GaussianEnergy":
-            op = ift.GaussianEnergy(data=f)
-        else:
-            op = ift.VdotOperator(f)
         cplx = _is_cplx(f)
         dom = f.domain
         if isinstance(dom, ift.MultiDomain):
             probe = ift.MultiField.from_raw(dom, {k: _probe_arr(dom[k].shape, cplx) for k in dom.keys()})
         else:
             probe = ift.Field.from_raw(dom, _probe_arr(dom.shape, cplx))
-        self.ops.append(dict(op=op, kind=kind, probe=probe, fidx=j, snap=self._eval(kind, op, probe)))
+
+        def build():
+            if kind == "makeOp":
+                op = ift.makeOp(f)
+            elif kind == "DiagonalOperator":
+                op = ift.DiagonalOperator(f)
+            elif kind == "Adder":
+                op = ift.Adder(f)
+            elif kind == "Adder_neg":
+                op = ift.Adder(f, neg=True)
+            elif kind == "GaussianEnergy":
+                op = ift.GaussianEnergy(data=f)
+            else:
+                op = ift.VdotOperator(f)
+            return op, self._eval(kind, op, probe)
+        built = self._tolerant([f], "op_" + kind, build)
+        if built is None:
+            return
+        self.ops.append(dict(op=built[0], kind=kind, probe=probe, fidx=j, snap=built[1]))
         self.classes.add("op:" + kind + ("(multi)" if mf else ""))
 
     @staticmethod
@@ -861,6 +1066,191 @@ class History:
             lin = op(ift.Linearization.make_var(probe))
             return (_sig(lin.val), _sig(lin.gradient))
         return _sig(op(probe))
+
+    # ---------- rejected constructor calls and other failing operations
+    def _wrongdom(self, shape):
+        return [d for d in self.wrong if tuple(d.shape) != tuple(shape)][0]
+
+    def op_reject(self, how, spec, dt, vals):
+        """a constructor call that has to be rejected, made with a registered array (source or handle; ANY
+        registered one - no field results, so no new alias can arise) or with a fresh array (registered afterwards)"""
+        if how not in REJECT:
+            how = REJECT_KINDS[0]
+        kind, i = spec[0], int(spec[1])
+        dt = dt if dt in DT else "f8"
+        rec = None
+        if kind in ("reuse", "handle") and self.arrs:
+            n = len(self.arrs)
+            order = [(i + d) % n for d in range(n)]
+            pref = [j for j in order if (self.arrs[j].root == "src") == (kind == "reuse")]
+            rec = self.arrs[(pref or order)[0]]
+            obj, label = rec.obj, ("registered_source" if rec.root == "src" else "registered_handle:" + rec.root)
+        else:
+            obj, _, extras, label = self._fresh_source(kind if kind in SRC_KINDS else "own",
+                                                       _values(vals, self.main.shape, dt))
+            for x, path in extras:
+                self.arrs.append(_Rec(x, "src", path, f"rejected<{label}>", None))
+            self.arrs.append(_Rec(obj, "src", "src", f"rejected<{label}>", None))
+        shape = tuple(_raw(obj).shape)
+        if how == "Field_scalar_nonscalar" and shape == ():
+            how = "Field_wrongshape"
+        wrong = self._wrongdom(shape)
+        try:
+            if how == "Field_wrongshape":
+                r = ift.Field(wrong, obj)
+            elif how == "from_raw_wrongshape":
+                r = ift.Field.from_raw(wrong, obj)
+            elif how == "makeField_wrongshape":
+                r = ift.makeField(wrong, obj)
+            elif how == "Field_scalar_nonscalar":
+                r = ift.Field.scalar(obj)
+            elif how == "Field_domain_not_tuple":
+                r = ift.Field(ift.UnstructuredDomain(3), obj)
+            elif how == "Field_mdom":
+                r = ift.Field(self.mdom, obj)
+            elif how == "from_raw_mdom":
+                r = ift.Field.from_raw(self.mdom, obj)
+            elif how == "makeField_mdom_nondict":
+                r = ift.makeField(self.mdom, obj)
+            elif how == "mf_from_raw_missing_key":
+                r = ift.MultiField.from_raw(self.mdom, {"a": obj})
+            elif how == "mf_from_raw_wrongshape":
+                r = ift.MultiField.from_raw(self.mdom, {"a": obj, "b": np.zeros(5)})
+            elif how == "MultiField_ctor_array":
+                r = ift.MultiField(self.mdom, (obj, obj))
+            elif how == "full_array":
+                r = ift.full(self.main, obj)
+            else:
+                r = ift.DiagonalOperator(obj)
+            exc = None
+        except REJECT[how] as e:
+            exc = e
+        what = f"rejected call {how} with {label} ({type(_raw(obj)).__name__}, shape {shape})"
+        if exc is None:
+            # not C07's business (the statement is about values, not about argument validation): keep going
+            self.classes.add("rejectable_call_was_accepted:" + how)
+            del r
+        else:
+            self.classes.add("exc_reject:" + type(exc).__name__)
+        # the call may have locked its argument (Field.__init__ locks first): rw copies are released
+        if rec is not None and rec.rwfam is not None:
+            self.rw_consumed.add(rec.rwfam)
+        raw = _raw(obj)
+        for other in self.arrs:
+            if other.obj is obj or _shares(raw, _raw(other.obj)):
+                other.after_reject = True
+        self.classes.add("reject:" + how)
+        self.classes.add("reject_arg:" + label)
+        self.check("by_rejected_call", what)
+
+    def op_ffail(self, i, how):
+        """an operation on a field that has to fail (mismatching domain, bad cast, ...)"""
+        j, ent = self._field(i)
+        if ent is None:
+            return
+        f = ent["obj"]
+        if how not in FFAIL:
+            how = "add_mismatch"
+        mf = isinstance(f, ift.MultiField)
+        if mf and how in ("cast_wrongshape", "unite_mismatch", "flexible_addsub_mismatch", "extract_wrong", "bool",
+                          "astype_bad"):
+            how = "add_mismatch"
+        shape = () if mf else tuple(f.domain.shape)
+        wrong = self._wrongdom(shape)
+        pw = ift.full(wrong, 1.)
+        try:
+            if how == "cast_wrongshape":
+                f.cast_domain(wrong)
+            elif how == "add_mismatch":
+                f + pw
+            elif how == "mul_mismatch":
+                pw * f
+            elif how == "vdot_mismatch":
+                f.vdot(pw)
+            elif how == "unite_mismatch":
+                f.unite(pw)
+            elif how == "flexible_addsub_mismatch":
+                f.flexible_addsub(pw, False)
+            elif how == "makeOp_wrong_input":
+                ift.makeOp(f)(pw)
+            elif how == "Adder_wrong_input":
+                ift.Adder(f)(pw)
+            elif how == "extract_wrong":
+                f.extract(wrong)
+            elif how == "bool":
+                bool(f)
+            elif how == "astype_bad":
+                f.astype("no_such_dtype")
+            elif how == "mf_ctor_wrongdom":
+                ift.MultiField(self.mdom, (f, pw))
+            elif how == "from_dict_wrongdom":
+                ift.MultiField.from_dict({"a": pw, "b": f}, self.mdom)
+            else:
+                f["no_such_key"]
+            self.classes.add("failing_op_was_accepted:" + how)
+        except FFAIL[how] as e:
+            self.classes.add("exc_ffail:" + type(e).__name__)
+        self.classes.add("ffail:" + how + ("(multi)" if mf else ""))
+        self.check("by_failing_field_operation", f"failing operation {how} on field #{j} ({ent['ctor']})")
+
+    def op_hfail(self, i, how):
+        """an operation on a registered array / AnyArray that has to fail for a reason other than write protection
+        (bad shape, bad index, bad type); nothing may change"""
+        if not self.arrs:
+            return
+        rec = self.arrs[i % len(self.arrs)]
+        h = rec.obj
+        isaa = isinstance(h, ift.AnyArray)
+        lst = HFAIL_AA if isaa else HFAIL_ND
+        if how not in lst:
+            how = lst[HFAIL_KINDS.index(how) % len(lst)] if how in HFAIL_KINDS else lst[0]
+        raw = _raw(h)
+        bad = np.zeros(tuple(raw.shape) + (raw.size + 3,), dtype=raw.dtype)     # never broadcastable to raw
+        allowed = HFAIL_EXC if (isaa and type(raw) is np.ndarray) else Exception
+        try:
+            if isaa:
+                if how == "add_badshape":
+                    h + ift.AnyArray(bad)
+                elif how == "setitem_badshape":
+                    h[...] = ift.AnyArray(bad)
+                elif how == "setitem_ndarray":
+                    h[...] = np.array(raw, copy=True).view(TaggedArray)
+                elif how == "index_ndarray":
+                    h[np.zeros(1, dtype=np.int64)]
+                elif how == "reshape_bad":
+                    h.reshape((raw.size + 3,))
+                elif how == "iadd_badshape":
+                    operator.iadd(h, ift.AnyArray(bad))
+                elif how == "astype_bad":
+                    h.astype("no_such_dtype")
+                elif how == "ufunc_out_badshape":
+                    np.add(h, h, out=ift.AnyArray(bad))
+                else:
+                    h[(raw.size + 3,) * max(raw.ndim, 1)] = 1
+            else:
+                if how == "setitem_badshape":
+                    h[...] = bad
+                elif how == "iadd_badshape":
+                    operator.iadd(h, bad)
+                elif how == "copyto_badshape":
+                    np.copyto(h, bad)
+                elif how == "setitem_oob":
+                    h[(raw.size + 3,) * max(raw.ndim, 1)] = 1
+                elif how == "put_oob":
+                    h.put(raw.size + 3, 1)
+                elif how == "reshape_bad":
+                    h.reshape((raw.size + 3,))
+                elif how == "setitem_str":
+                    h[...] = "not a number"
+                else:
+                    np.add(h, h, out=bad)
+            self.classes.add("failing_op_was_accepted:" + how)
+        except allowed as e:
+            self.classes.add("exc_hfail:" + type(e).__name__)
+        self.classes.add(("hfail_aa:" if isaa else "hfail_nd:") + how)
+        self.check("by_failing_handle_operation",
+                   f"failing operation {how} on {rec.path} ({'AnyArray' if isaa else type(raw).__name__}) of a field "
+                   f"built by {rec.ctor}")
 
     # ---------- write attempts
     def op_write(self, i, wkind, pos, v):
@@ -876,7 +1266,9 @@ class History:
             wkind = "setall"        # empty slice: nothing to address
         contig = bool(raw.flags.c_contiguous)
         # twin: would numpy accept this write on a plain writable copy, and would it change anything?
-        twin_raw = np.array(raw, copy=True)
+        exotic = type(raw) is not np.ndarray       # ndarray subclass: numpy's subclass code decides how to refuse
+        refusal = Exception if exotic else REFUSAL
+        twin_raw = np.array(np.asarray(raw), copy=True)
         twin = ift.AnyArray(twin_raw) if isaa else twin_raw
         t0 = twin_raw.tobytes()
         try:
@@ -886,13 +1278,13 @@ class History:
             applicable = False
         effective = applicable and twin_raw.tobytes() != t0
         aliases = any(_shares(raw, leaf) for f in self.fields for leaf in self._leaves(f["obj"]))
-        pre = raw.tobytes()
+        pre = _bytes(raw)
         exc = None
         try:
             fn(wkind, tgt, pos, v, contig)
-        except REFUSAL as e:
+        except refusal as e:
             exc = e
-        wrote = raw.tobytes() != pre
+        wrote = _bytes(raw) != pre
         if exc is not None:
             outcome = "refused" if applicable else "inapplicable_dtype"
         elif wrote:
@@ -904,7 +1296,8 @@ class History:
         what = (f"write '{wkind}' through {rec.path} ({'AnyArray' if isaa else 'ndarray'}) of a field built by "
                 f"{rec.ctor}: outcome {outcome}" + (f" [{type(exc).__name__}: {exc}]" if exc else ""))
         self.check(f"by_write_via_{via}", what)
-        if (exc is not None and applicable and rec.rwfam is not None and rec.rwfam not in self.rw_consumed):
+        if (exc is not None and applicable and rec.rwfam is not None and rec.rwfam not in self.rw_consumed
+                and not exotic):
             raise Violation("rw_copy_refuses_write", what + " - but the handle is a documented writable copy")
         if effective and aliases:
             self.nontrivial = True
@@ -912,6 +1305,14 @@ class History:
         root = rec.root + (".aa" if isaa and rec.root == "src" else "") + ("~v" if depth else "")
         self.classes.add(f"{_cgroup(rec.ctor)}|{root}|{WFAMILY[wkind]}")
         self.classes.add(("write_aa:" if isaa else "write_nd:") + wkind)
+        if type(raw) is not np.ndarray:
+            self.classes.add("write_target:" + type(raw).__name__)
+        elif not raw.dtype.isnative:
+            self.classes.add("write_target:non_native_dtype")
+        if raw.ndim == 0:
+            self.classes.add("write_target:0d")
+        if rec.after_reject:
+            self.classes.add("write_after_rejected_call_with_target" + ("(alias)" if aliases else "(copy)"))
         self.classes.add("outcome:" + outcome + ("(alias)" if aliases else "(copy)"))
         if exc is not None:
             self.classes.add("exc:" + type(exc).__name__)
@@ -967,6 +1368,14 @@ class History:
             self.op_derive(op[1], op[2])
         elif k == "op":
             self.op_op(op[1], op[2])
+        elif k == "copy":
+            self.op_copy(op[1], op[2])
+        elif k == "reject":
+            return self.op_reject(op[1], op[2], op[3], op[4])   # these check the invariant themselves
+        elif k == "ffail":
+            return self.op_ffail(op[1], op[2])
+        elif k == "hfail":
+            return self.op_hfail(op[1], op[2])
         elif k == "write":
             return self.op_write(op[1], op[2], op[3], op[4])   # checks the invariant itself
         else:
@@ -978,10 +1387,13 @@ class History:
 
 def check(rec):
     h = History(rec)
-    with np.errstate(all="ignore"):       # exp/pow chains may overflow to inf: irrelevant for byte identity
-        for op in rec["ops"]:
-            h.step(op)
-        h.final()
+    try:
+        with np.errstate(all="ignore"):       # exp/pow chains may overflow to inf: irrelevant for byte identity
+            for op in rec["ops"]:
+                h.step(op)
+            h.final()
+    finally:
+        h.close()
     h.classes.add(f"dom:{rec['dom']}")
     if h.nwrites == 0:
         h.classes.add("no_write_attempt")
@@ -1007,8 +1419,14 @@ def _srcspec():
                      _lst(st.just("handle"), IDX))
 
 
+def _argspec():
+    """argument of a rejected call: mostly something that is already registered (source / handle)"""
+    return st.one_of(_lst(st.just("reuse"), IDX), _lst(st.just("reuse"), IDX), _lst(st.just("handle"), IDX),
+                     _lst(st.just("handle"), IDX), _lst(st.sampled_from(SRC_KINDS), st.just(0)))
+
+
 def _op_strategies(multi):
-    new = _lst(st.just("new"), st.sampled_from(ARR_CTORS), _srcspec(), DTS, VALS)
+    new = _lst(st.just("new"), st.sampled_from(ARR_CTORS_S), _srcspec(), DTS, VALS)
     full = _lst(st.just("full"), st.sampled_from(FULL_KINDS),
                 st.one_of(S.dyadic(-2, 2, 4), st.integers(-3, 3),
                           st.fixed_dictionaries({"re": S.dyadic(-2, 2, 4), "im": S.dyadic(-2, 2, 4)})))
@@ -1023,13 +1441,17 @@ def _op_strategies(multi):
     derive = _lst(st.just("derive"), IDX, st.sampled_from(sorted(set(ND_DERIVE + AA_DERIVE))))
     write = _lst(st.just("write"), IDX, st.sampled_from(ALL_WRITES), st.integers(0, 7), VNZ)
     opb = _lst(st.just("op"), IDX, st.sampled_from(OP_KINDS))
+    cpy = _lst(st.just("copy"), IDX, st.sampled_from(COPY_KINDS))
+    reject = _lst(st.just("reject"), st.sampled_from(REJECT_SHAPE + REJECT_KINDS), _argspec(), DTS, VALS)
+    ffail = _lst(st.just("ffail"), IDX, st.sampled_from(FFAIL_KINDS))
+    hfail = _lst(st.just("hfail"), IDX, st.sampled_from(HFAIL_KINDS))
     if multi:
         first = st.one_of(new, mf, mf, mf)
-        construct = st.one_of(new, full, cast, unary, binary, mf, mf, mf, mfpart, mfpart)
+        construct = st.one_of(new, full, cast, unary, binary, mf, mf, mf, mfpart, mfpart, cpy)
     else:
         first = st.one_of(new, new, new, full, rnd)
-        construct = st.one_of(new, new, new, full, rnd, cast, cast, unary, unary, unary, binary)
-    use = st.one_of(handle, handle, handle, derive, derive, opb, write, write)
+        construct = st.one_of(new, new, new, new, full, rnd, cast, cast, unary, unary, unary, binary, cpy, cpy)
+    use = st.one_of(handle, handle, handle, derive, derive, opb, write, write, reject, reject, st.one_of(ffail, hfail))
     return first, construct, use, write
 
 
@@ -1052,7 +1474,7 @@ def histories(multi):
             return out[:steps]
 
         return st.fixed_dictionaries({
-            "dom": st.sampled_from(["u", "u", "rg", "2d"]),
+            "dom": st.sampled_from(["u", "u", "rg", "2d", "2d", "s", "s"]),
             "n": st.integers(1, 4),
             "ops": ops(),
         })
